@@ -108,7 +108,7 @@ func str(t *rapid.T, alpha []rune, min, max int, label string) string {
 func Gen(t *rapid.T) Case {
 	alpha := alphabet(t)
 	c := Case{}
-	shape := rapid.SampledFrom([]string{"core", "core", "core", "core", "core", "core", "random", "random", "wide", "wide", "leftmerge", "leftmerge", "leftmerge", "leftmerge", "touching", "touching", "many", "dups"}).Draw(t, "shape")
+	shape := rapid.SampledFrom([]string{"core", "core", "core", "core", "core", "core", "random", "random", "wide", "wide", "leftmerge", "leftmerge", "leftmerge", "leftmerge", "touching", "touching", "many", "dups", "bushy", "bushy"}).Draw(t, "shape")
 	c.Shape = shape
 	var textParts []string
 	switch shape {
@@ -191,6 +191,21 @@ func Gen(t *rapid.T) Case {
 		c.Patterns = append(c.Patterns, a, a+a, b)
 		reps := rapid.SampledFrom([]int{130, 257, 300, 520}).Draw(t, "reps")
 		textParts = append(textParts, strings.Repeat(a, reps), b, strings.Repeat(a+b, reps/4))
+	case "bushy":
+		// 20..70 short patterns over a handful of runes: few first runes, many second and third ones (the breadth-first
+		// frontier of BuildFailureLinks outgrows its ring buffer while the head is rotated), and most patterns have a
+		// suffix that is a prefix of another one (failure links that are not the root)
+		small := alpha
+		if k := rapid.IntRange(3, 5).Draw(t, "bushyAlphabet"); len(small) > k {
+			small = small[:k]
+		}
+		n := rapid.IntRange(20, 75).Draw(t, "nBushy")
+		maxLen := rapid.SampledFrom([]int{4, 6, 8}).Draw(t, "bushyLen")
+		for i := 0; i < n; i++ {
+			c.Patterns = append(c.Patterns, str(t, small, 2, maxLen, "bp"))
+		}
+		textParts = append(textParts, str(t, small, 4, 12, "bt"), str(t, small, 4, 12, "bt2"))
+		alpha = small
 	case "dups":
 		// the same pattern inserted hundreds of times (around 256 and its multiples), next to a few others
 		a, b := str(t, alpha, 1, 3, "a"), str(t, alpha, 1, 3, "b")
